@@ -98,6 +98,8 @@ def _setup(c, rng):
     d = common.draw_model(rng, c["name"], dim, "interior", aniso=True, nugget=False)
     if not c["rotated"] and dim > 1:
         d["angles"] = [0.0] * (dim * (dim - 1) // 2)
+    if c["rotated"] and dim > 1 and rng.random() < 0.3:
+        d["anis"] = [1.0] * (dim - 1)  # isotropic but rotated
     if c["name"] == "Stable" and "opt" in d:
         d["opt"]["alpha"] = max(d["opt"]["alpha"], 1.0)
     model = common.build_model(d)
@@ -129,7 +131,7 @@ def check_history(ctx, c):
     ctx.cell(f"history/{c['name']}/dim{dim}")
     hist = []
     for step in range(c["nsteps"]):
-        op = str(rng.choice(["period", "period_scalar", "mode_no", "seed", "anis", "len_scale_list", "angles", "opt", "len_scale",
+        op = str(rng.choice(["period", "period_scalar", "period_one_axis", "period_scalar_keeps_axis", "mode_no_one_axis", "iso_rotated", "mode_no", "seed", "anis", "len_scale_list", "angles", "opt", "len_scale",
                              "new_model", "var", "call"]))
         with warnings.catch_warnings():
             warnings.simplefilter("ignore")
@@ -137,6 +139,23 @@ def check_history(ctx, c):
                 srf.generator.period = [round(float(v), 4) for v in rng.uniform(6, 25, size=dim)]
             elif op == "period_scalar":
                 srf.generator.period = round(float(rng.uniform(6, 25)), 4)
+            elif op == "period_one_axis":
+                # only some axes change: the others keep exactly their old value
+                newp = [float(v) for v in np.atleast_1d(np.asarray(srf.generator.period, dtype=float))]
+                newp = (newp * dim)[:dim]
+                newp[int(rng.integers(0, dim))] = round(float(rng.uniform(6, 25)), 4)
+                srf.generator.period = newp
+            elif op == "period_scalar_keeps_axis":
+                srf.generator.period = float(np.atleast_1d(np.asarray(srf.generator.period, dtype=float))[int(rng.integers(0, dim)) % np.size(srf.generator.period)])
+            elif op == "mode_no_one_axis":
+                req = [int(v) for v in np.atleast_1d(srf.generator.mode_no)]
+                req = (req * dim)[:dim]
+                req[int(rng.integers(0, dim))] = int(rng.choice([2, 4, 6]))
+                srf.generator.mode_no = req
+            elif op == "iso_rotated" and dim > 1:
+                # all ratios 1 but rotated: the covariance is rotation invariant, the period lattice is not
+                srf.model.anis = [1.0] * (dim - 1)
+                srf.model.angles = [round(float(v), 3) for v in rng.uniform(-3, 3, size=dim * (dim - 1) // 2)]
             elif op == "mode_no":
                 req = [int(v) for v in rng.choice([2, 4, 8] if dim < 3 else [2, 4, 6], size=dim)]
                 srf.generator.mode_no = req
